@@ -41,6 +41,7 @@ pub struct Collector {
     pub method_recvs: Vec<(String, (usize, usize))>,      // method name, receiver span
     pub macros: Vec<(String, (usize, usize))>,
     pub lets: Vec<(String, (usize, usize))>, // `let NAME = <init>`: name, init span
+    pub let_heads: Vec<(usize, Option<(usize, usize)>)>, // parallel to `lets`: end of the bound name, span of the type annotation
     pub closure_callee: std::collections::HashMap<usize, String>, // closure span start -> callee name
     pub key_counts: std::collections::HashMap<String, usize>,
 }
@@ -55,6 +56,11 @@ impl<'ast> Visit<'ast> for Collector {
             };
             if let (Some(n), Some(init)) = (name, &l.init) {
                 self.lets.push((n, br(init.expr.span())));
+                let head = match &l.pat {
+                    syn::Pat::Type(pt) => (br(pt.pat.span()).1, Some(br(pt.ty.span()))),
+                    p => (br(p.span()).1, None),
+                };
+                self.let_heads.push(head);
             }
         }
         self.stmts.push(br(s.span()));
